@@ -1,5 +1,6 @@
 import Pyunicorn.Model.Proto
 import Pyunicorn.Model.Surrogates
+import Pyunicorn.Model.SurrogatesKernel
 /-! Line-protocol driver for C15 (surrogates).  Matrices: rows separated by `;`,
 an empty row is `-`, the empty matrix is `E`; lists of matrices separated by `|`
 (`E` alone = no matrix ... see `mats`). -/
@@ -27,6 +28,19 @@ def showFloat (x : Float) : String :=
 
 def floatTrig : Trig Float := ⟨Float.cos, Float.sin⟩
 
+def floatPolar : Polar Float :=
+  { floatTrig with sqrt := Float.sqrt, angle := fun re im => Float.atan2 im re }
+
+def showPairs (o : List (Float × Float)) : String :=
+  join (o.map fun z => showFloat z.1 ++ "_" ++ showFloat z.2)
+
+def floatPairs (re im : String) : List (Float × Float) :=
+  ((rats re).map ratToFloat).zip ((rats im).map ratToFloat)
+
+/-- deterministic "garbage" for the work arrays `np.empty` returns -/
+def garbageR (seed : Nat) (j k : Nat) : Bool := (j * 7 + k * 3 + seed) % 3 == 0
+def garbageN (seed : Nat) (j : Nat) : Int := (seed : Int) - 2 * (j : Int)
+
 def pickOf (draws : List Rat) : Nat → Nat → Nat := floorPick (fun c => draws.getD c 0)
 
 def modeOf (s : String) : Mode := if s == "inplace" then .inplace else .copy
@@ -37,12 +51,28 @@ def answer (toks : List String) : String :=
   | ["aaft", d, s] => showOpt (showMat showRats) (aaft (matOf rats d) (matOf rats s))
   | ["refined", d, s0, ss] =>
       showOpt (showMat showRats) (refinedAaft (matOf rats d) (matOf rats s0) (matsOf rats ss))
+  | ["rescaled", d, g] => showOpt (showMat showRats) (aaftRescaled (matOf rats d) (matOf rats g))
+  | ["specin", zre, zim, rre, rim] =>
+      showPairs (specInRow floatPolar (floatPairs zre zim) (floatPairs rre rim))
+  | ["embed_k", dim, delay, row] =>
+      match embedK (rats row) dim.toNat! delay.toNat! with
+      | some e => showMat showRats e
+      | none => "raise:ValueError"
+  | ["twins_k", thr, md, embs, r0, nr0] =>
+      let (tw, w) := twinsKernel ((rat? thr).getD 0) md.toNat! (matsOf rats embs)
+        ⟨matOf bools r0, ints nr0⟩
+      join (tw.map (showMat showNats)) "|" ++ "#" ++ showMat showBools w.R ++ "#" ++ showInts w.nR
+  | ["rp_twins_k", md, r] => showMat showNats (rpTwinsK md.toNat! (matOf bools r))
+  | ["twinsurr_k", dim, delay, thr, md, seed, dr, d] =>
+      showOpt (showMat showRats)
+        (twinSurrogatesK (matOf rats d) dim.toNat! delay.toNat! ((rat? thr).getD 0) md.toNat!
+          (pickOf (rats dr)) (garbageR seed.toNat!) (garbageN seed.toNat!))
   | ["ranks", s] => showNats (ranks (rats s))
   | ["fy", xs, dr] => showNats (fisherYates (nats xs).toArray (nats dr)).toList
   | ["fourier", mode, re, im, ph] =>
       let cache := ((rats re).map ratToFloat).zip ((rats im).map ratToFloat)
       let outs := fourierCalls floatTrig (modeOf mode) cache ((matOf rats ph).map (·.map ratToFloat))
-      join (outs.map fun o => join (o.map fun z => showFloat z.1 ++ "_" ++ showFloat z.2)) ";"
+      join (outs.map showPairs) ";"
   | ["embed", dim, delay, row] =>
       match embed (rats row) dim.toNat! delay.toNat! with
       | some e => showMat showRats e
